@@ -62,6 +62,10 @@ func main() {
 	}
 	opts := solveOpts{timeoutSec: to, workDir: *work, allAgree: *tier == "thorough", keep: *keep, par: 16}
 	if *localsOut != "" {
+		if err := eng.writeBaselineFunctions(strings.TrimSuffix(*localsOut, "locals.json") + "functions.json"); err != nil {
+			fmt.Fprintln(os.Stderr, "govc:", err)
+			os.Exit(2)
+		}
 		if err := eng.writeBaselineLocals(*localsOut); err != nil {
 			fmt.Fprintln(os.Stderr, "govc:", err)
 			os.Exit(2)
